@@ -46,7 +46,7 @@ func TestC08(t *testing.T) {
 	}
 	cfgOf := func(u int) storeh.Config {
 		return storeh.Config{Batch: []int{1, 2, 3, 5, 64}[rng.Intn(5)], Cache: []int{4, 8, 512}[rng.Intn(3)], ICache: []int{4, 2048}[rng.Intn(2)],
-			U: u, NH: rng.Intn(3), ProbeEvery: true, Ranges: 2, CtxDS: rng.Bool()}
+			U: u, NH: rng.Intn(3), ProbeEvery: true, Ranges: 2, CtxDS: rng.Bool(), DuringPct: 30}
 	}
 	n := 110
 	if emit.Thorough() {
